@@ -3,6 +3,7 @@
 package main
 
 import (
+	"time"
 	"fmt"
 	"io"
 	"log"
@@ -97,6 +98,8 @@ func writeUser(base string, cfg *vlib.Config, u seedUser) error {
 	ts := u.TS
 	if ts == 0 {
 		ts = 946000000
+	} else if ts < 0 {
+		ts = time.Now().Unix() // "written in the current second" (inside a bubble: the virtual clock)
 	}
 	content := append([]byte(set.Record(u.PW, salt, ts)+"\n"), u.Aux...)
 	return os.WriteFile(filepath.Join(base, u.Name+ext), content, 0o600)
